@@ -115,8 +115,15 @@ func (f *impFn) assigned(nodes ...ast.Node) []string {
 				}
 				if se, ok := s.Fun.(*ast.SelectorExpr); ok {
 					if id, ok := se.X.(*ast.Ident); ok {
-						if t := f.lookup(id.Name); t != nil && (t.k == "elem" || (t.k == "bigint" && (se.Sel.Name == "Neg" || (se.Sel.Name == "Set" && f.p.tg.grp != "")))) {
+						if t := f.lookup(id.Name); t != nil && (t.k == "elem" || (t.k == "bigint" && (se.Sel.Name == "Neg" || se.Sel.Name == "SetBytes" || se.Sel.Name == "Mod" || se.Sel.Name == "SetString" || (se.Sel.Name == "Set" && f.p.tg.grp != "")))) {
 							set[id.Name] = true
+						}
+					}
+					if ix, ok := se.X.(*ast.IndexExpr); ok { // xs[i].M(…) on a slice of elements: xs is updated
+						if id, ok := ix.X.(*ast.Ident); ok {
+							if t := f.lookup(id.Name); t != nil && t.k == "slice" && t.elem.k == "elem" {
+								set[id.Name] = true
+							}
 						}
 					}
 					if r := callRecvRoot(s); r != "" && f.isGrpVar(r) {
@@ -300,6 +307,28 @@ func (f *impFn) simple(s ast.Stmt, prev ast.Stmt, c *ictx) []string {
 			p.die(s, "assignment operator %s", v.Tok)
 		}
 		if len(v.Lhs) == 2 && len(v.Rhs) == 1 {
+			if call, ok := v.Rhs[0].(*ast.CallExpr); ok && p.tg.mode == "h2f" && len(call.Args) == 2 && v.Tok == token.DEFINE {
+				// `_, ok := x.SetString(s, 0)` on a scratch big.Int: PARAMETER bigSetString (value, ok); x is unspecified when !ok
+				if se, isSel := call.Fun.(*ast.SelectorExpr); isSel && se.Sel.Name == "SetString" {
+					if id, isId := se.X.(*ast.Ident); isId && f.lookup(id.Name) != nil && f.lookup(id.Name).k == "bigint" {
+						l0, ok0 := v.Lhs[0].(*ast.Ident)
+						l1, ok1 := v.Lhs[1].(*ast.Ident)
+						if !f.isFresh(id.Name) || f.bigDead[id.Name] {
+							p.die(s, "%s.SetString(…) on a big.Int that is not a live scratch object", id.Name)
+						}
+						if !ok0 || !ok1 || l0.Name != "_" || l1.Name == "_" || exprText(call.Args[1]) != "0" {
+							p.die(s, "SetString form (only `_, ok := x.SetString(s, 0)`)")
+						}
+						ss, st := f.expr(call.Args[0], tyString, c)
+						if st.k != "string" {
+							p.die(s, "SetString argument type")
+						}
+						f.declare(s, l1.Name, tyBool)
+						delete(f.bigUninit, id.Name)
+						return []string{"let (" + lname(id.Name) + ", " + lname(l1.Name) + ") := bigSetString " + parenImp(ss)}
+					}
+				}
+			}
 			names := func(ts ...*ity) []string {
 				var ns []string
 				for i, l := range v.Lhs {
@@ -350,6 +379,23 @@ func (f *impFn) simple(s ast.Stmt, prev ast.Stmt, c *ictx) []string {
 						"let " + lname(root) + " := " + nv}
 				}
 			}
+			if call, ok := v.Rhs[0].(*ast.CallExpr); ok && p.tg.mode == "h2f" && exprText(call.Fun) == "hash.ExpandMsgXmd" && len(call.Args) == 3 && f.lookup("hash") == nil {
+				// the already-translated field/hash.ExpandMsgXmd: an explicit PARAMETER of the def
+				if p.imports["hash"] != "github.com/consensys/gnark-crypto/field/hash" {
+					p.die(s, "package `hash` is %q, not gnark-crypto/field/hash", p.imports["hash"])
+				}
+				var as []string
+				for i, a := range call.Args {
+					w := []*ity{tyBytes, tyBytes, tyInt}[i]
+					es, et := f.sliceVal(a, w, c)
+					if !et.eq(w) {
+						p.die(a, "argument %d of hash.ExpandMsgXmd: %v expected, %v given", i, w, et)
+					}
+					as = append(as, parenImp(es))
+				}
+				ns := names(tyBytes, tyErr)
+				return []string{"let (" + ns[0] + ", " + ns[1] + ") := ExpandMsgXmd " + strings.Join(as, " ")}
+			}
 			p.die(s, "tuple assignment outside the subset")
 		}
 		if len(v.Lhs) != 1 || len(v.Rhs) != 1 {
@@ -364,6 +410,25 @@ func (f *impFn) simple(s ast.Stmt, prev ast.Stmt, c *ictx) []string {
 			id, ok := v.Lhs[0].(*ast.Ident)
 			if !ok {
 				p.die(s, ":= to a non-variable")
+			}
+			if call, ok := v.Rhs[0].(*ast.CallExpr); ok && exprText(call.Fun) == "pool.BigInt.Get" && len(call.Args) == 0 && p.tg.mode == "h2f" {
+				if p.imports["pool"] != "github.com/consensys/gnark-crypto/field/pool" {
+					p.die(s, "package `pool` is %q, not gnark-crypto/field/pool", p.imports["pool"])
+				}
+				f.checkBigScratch(v, id.Name)
+				f.declare(s, id.Name, &ity{k: "bigint"})
+				if f.bigFresh == nil {
+					f.bigFresh = map[string]bool{}
+				}
+				if f.bigUninit == nil {
+					f.bigUninit = map[string]bool{}
+				}
+				if f.bigScratch == nil {
+					f.bigScratch = map[string]bool{}
+				}
+				f.bigScratch[id.Name] = true
+				f.bigFresh[id.Name], f.bigUninit[id.Name] = true, true
+				return []string{"let " + lname(id.Name) + " : Int := 0  -- pool.BigInt.Get(): a fresh scratch object (contents unspecified: checked to be set before it is read, not to escape, not to be used after Put)"}
 			}
 			es, et := f.expr(v.Rhs[0], nil, c)
 			f.declare(s, id.Name, et)
@@ -462,6 +527,33 @@ func (f *impFn) simple(s ast.Stmt, prev ast.Stmt, c *ictx) []string {
 						val = "mul " + arg(call.Args[0]) + " " + arg(call.Args[1])
 					case se.Sel.Name == "Inverse" && len(call.Args) == 1:
 						val = "inv " + arg(call.Args[0])
+					case se.Sel.Name == "SetZero" && len(call.Args) == 0 && p.tg.mode == "h2f":
+						val = "zeroF"
+					case se.Sel.Name == "SetUint64" && len(call.Args) == 1 && p.tg.mode == "h2f":
+						// PARAMETER setUint64F
+						us, ut := f.expr(call.Args[0], tyU64, c)
+						if ut.k != "uint64" {
+							p.die(s, "SetUint64 argument type %v", ut)
+						}
+						val = "setUint64F " + parenImp(us)
+					case se.Sel.Name == "Neg" && len(call.Args) == 1 && p.tg.mode == "h2f":
+						val = "negF " + arg(call.Args[0]) // PARAMETER negF
+					case p.tg.mode == "h2f" && p.elemMeth[se.Sel.Name] != nil && len(call.Args) == len(p.elemMeth[se.Sel.Name].params):
+						// a method `func (z *Element) M(…) *Element` of this target translated before
+						_, margs := h2fParams(se.Sel.Name)
+						val = se.Sel.Name + margs + " " + lname(id.Name)
+						for i, a := range call.Args {
+							if p.elemMeth[se.Sel.Name].params[i].k != "bigint" {
+								p.die(a, "argument %d of %s", i, se.Sel.Name)
+							}
+							val += " " + parenImp(f.h2fBigArg(a, c))
+						}
+					case se.Sel.Name == "setBigInt" && len(call.Args) == 1 && p.tg.mode == "h2f":
+						// the limb-level primitive (assumes 0 ≤ v < q): PARAMETER setBigIntF
+						if p.funcs["setBigInt"] == nil || p.funcs["setBigInt"].Recv == nil {
+							p.die(s, "method setBigInt not found")
+						}
+						val = "setBigIntF " + parenImp(f.h2fBigArg(call.Args[0], c))
 					default:
 						p.die(s, "element method %s outside the subset", se.Sel.Name)
 					}
@@ -493,9 +585,87 @@ func (f *impFn) simple(s ast.Stmt, prev ast.Stmt, c *ictx) []string {
 						delete(f.bigUninit, id.Name)
 						return []string{"let " + lname(id.Name) + " := -" + parenImp(as)}
 					}
+					if (se.Sel.Name == "SetBytes" || se.Sel.Name == "Mod") && p.tg.mode == "h2f" {
+						if !f.isFresh(id.Name) {
+							p.die(s, "%s.%s(…) on a big.Int that is not known to be a fresh object (could be the caller's)", id.Name, se.Sel.Name)
+						}
+						if f.bigDead[id.Name] {
+							p.die(s, "%s is used after pool.BigInt.Put(%s)", id.Name, id.Name)
+						}
+						var val string
+						if se.Sel.Name == "Mod" && len(call.Args) == 2 {
+							// x.Mod(a, m): Euclidean remainder a mod m, 0 ≤ result < |m| (m = 0 panics in Go: not modelled)
+							val = "bigMod " + parenImp(f.h2fBigArg(call.Args[0], c)) + " " + parenImp(f.h2fBigArg(call.Args[1], c))
+						} else if sl, ok := call.Args[0].(*ast.SliceExpr); ok && se.Sel.Name == "SetBytes" && len(call.Args) == 1 && sl.Low != nil && sl.High != nil && sl.Max == nil {
+							// x.SetBytes(s[a:b]): the window is only read (SetBytes copies); bounds out of range panic in Go: not modelled
+							xs, xt := f.sliceVal(sl.X, tyBytes, c)
+							ls, lt := f.expr(sl.Low, tyInt, c)
+							hs, ht := f.expr(sl.High, tyInt, c)
+							if !xt.eq(tyBytes) || lt.k != "int" || ht.k != "int" {
+								p.die(s, "SetBytes argument types")
+							}
+							val = "bigSetBytes (sliceOf " + parenImp(xs) + " " + parenImp(ls) + " " + parenImp(hs) + ")"
+						} else if se.Sel.Name == "SetBytes" && len(call.Args) == 1 {
+							xs, xt := f.sliceVal(call.Args[0], tyBytes, c)
+							if !xt.eq(tyBytes) {
+								p.die(s, "SetBytes argument type")
+							}
+							val = "bigSetBytes " + parenImp(xs)
+						} else {
+							p.die(s, "big.Int method %s form", se.Sel.Name)
+						}
+						delete(f.bigUninit, id.Name)
+						return []string{"let " + lname(id.Name) + " := " + val}
+					}
 					p.die(s, "big.Int method %s as a statement", se.Sel.Name)
 				}
 			}
+		}
+		if se, ok := call.Fun.(*ast.SelectorExpr); ok && p.tg.mode == "h2f" {
+			if ix, ok := se.X.(*ast.IndexExpr); ok {
+				// xs[i].M(args) with M a method `func (z *Element) M(…) *Element` of this target translated before: xs[i] gets M's result
+				id, isId := ix.X.(*ast.Ident)
+				sig := p.elemMeth[se.Sel.Name]
+				if !isId || sig == nil {
+					p.die(s, "method call on an indexed element outside the subset")
+				}
+				t := f.lookup(id.Name)
+				if t == nil || t.k != "slice" || t.elem.k != "elem" {
+					p.die(s, "indexed method call on %v", t)
+				}
+				f.checkFreshLocal(s, id.Name)
+				js, jt := f.expr(ix.Index, tyInt, c)
+				if jt.k != "int" || len(call.Args) != len(sig.params) {
+					p.die(s, "indexed method call: index type / arity")
+				}
+				_, margs := h2fParams(se.Sel.Name)
+				out := se.Sel.Name + margs + " (index " + lname(id.Name) + " " + parenImp(js) + ")"
+				for i, a := range call.Args {
+					var as string
+					if sig.params[i].k == "bigint" {
+						as = f.h2fBigArg(a, c)
+					} else {
+						var at *ity
+						as, at = f.expr(a, sig.params[i], c)
+						if !at.eq(sig.params[i]) {
+							p.die(a, "argument %d of %s", i, se.Sel.Name)
+						}
+					}
+					out += " " + parenImp(as)
+				}
+				return []string{"let " + lname(id.Name) + " := setAt " + lname(id.Name) + " " + parenImp(js) + " (" + out + ")"}
+			}
+		}
+		if exprText(call.Fun) == "pool.BigInt.Put" && len(call.Args) == 1 && p.tg.mode == "h2f" {
+			id, ok := call.Args[0].(*ast.Ident)
+			if !ok || !f.isFresh(id.Name) {
+				p.die(s, "pool.BigInt.Put of something that is not a scratch object obtained by Get in this function")
+			}
+			if f.bigDead == nil {
+				f.bigDead = map[string]bool{}
+			}
+			f.bigDead[id.Name] = true
+			return []string{"-- pool.BigInt.Put(" + id.Name + "): memory pool only (" + id.Name + " is not used afterwards: checked)"}
 		}
 		if id, ok := call.Fun.(*ast.Ident); ok {
 			if t := f.lookup(id.Name); t != nil && t.k == "events" {
@@ -601,6 +771,25 @@ func (f *impFn) simple(s ast.Stmt, prev ast.Stmt, c *ictx) []string {
 		p.die(s, "call statement %s outside the subset", exprText(call.Fun))
 	case *ast.DeclStmt:
 		gd, ok := v.Decl.(*ast.GenDecl)
+		if ok && gd.Tok == token.CONST && p.tg.mode == "h2f" {
+			// local `const X = e`: an (untyped) integer constant expression, exact arithmetic
+			var out []string
+			for _, sp := range gd.Specs {
+				vs := sp.(*ast.ValueSpec)
+				if vs.Type != nil || len(vs.Values) != len(vs.Names) {
+					p.die(s, "const declaration form (only `const X = e`)")
+				}
+				for i, n := range vs.Names {
+					es, et := f.expr(vs.Values[i], tyInt, c)
+					if et.k != "int" {
+						p.die(s, "const %s: integer expression expected", n.Name)
+					}
+					f.declare(s, n.Name, tyInt)
+					out = append(out, "let "+lname(n.Name)+" : Int := "+es)
+				}
+			}
+			return out
+		}
 		if ok && gd.Tok == token.CONST && p.tg.grp != "" && len(gd.Specs) == 1 {
 			// `const n = bits.UintSize`: 64 (64-bit platforms, as for uint); an untyped integer constant used as an int
 			vs := gd.Specs[0].(*ast.ValueSpec)
@@ -691,6 +880,10 @@ func (f *impFn) seq(list []ast.Stmt, k *kont, c *ictx, ind string, prev ast.Stmt
 		}
 		var vals []string
 		for i, r := range v.Results {
+			if id, ok := r.(*ast.Ident); ok && f.results[i].k == "ptr" && id.Name == f.recv && f.recvTy.eq(f.results[i].elem) {
+				vals = append(vals, "some "+lname(f.recv)) // the returned pointer is the receiver
+				continue
+			}
 			es, et := f.expr(r, f.results[i], c)
 			if !et.eq(f.results[i]) {
 				p.die(r, "return value %d: %v expected, %v given", i, f.results[i], et)
@@ -1250,7 +1443,11 @@ func (f *impFn) forStmt(v *ast.ForStmt, rest []ast.Stmt, k *kont, c *ictx, ind s
 		return post + name + hole + " fuel_ " + strings.Join(lnames(S), " ")
 	}
 	f.push()
+	uninit0 := copySet(f.bigUninit)
 	body := f.seq(v.Body.List, nil, cc, "      ", nil, false)
+	if len(uninit0) > 0 { // the body may run zero times: what was unset before the loop is still unset after it
+		f.bigUninit = uninit0
+	}
 	f.restore(ss, sg)
 	roArgs := ""
 	var roParams []string
